@@ -126,7 +126,9 @@ Proof.
     apply reach_bind in H as [[[t2' w2] d2] [H2 H]]. apply reach_ret in H. inversion H; subst.
     cbn in Hs. apply andb_prop in Hs as [Hs Hs2]. apply andb_prop in Hs as [Hcc Hs1].
     apply eqb_prop in Hcc. subst c0. inversion HW; subst.
-    cbn. destruct c; eauto.
+    cbn [unsel_score get_score]. destruct c.
+    + rewrite (IH1 _ _ _ _ _ _ H1) by assumption. lia.
+    + rewrite (IH2 _ _ _ _ _ _ H2) by assumption. lia.
   - intros v old s st v' st' H _. cbn in H. apply reach_ret in H. inversion H; subst.
     exists []. split; [reflexivity|].
     intros seg Hseg _. destruct seg as [|[b y] seg]; [|cbn in Hseg; discriminate]. cbn. lia.
